@@ -82,7 +82,7 @@ func (nb *neighbour) foreignTo(unc bool) bool { return !nb.damaged || nb.unc != 
 
 // verifyNeighbours judges the output of Verify of the client of format unc with respect to
 // the neighbours and returns the output without the lines about its own damaged neighbours.
-func (m *model) verifyNeighbours(o *hx.Outcome, base string, unc bool, repair bool, out, where string) string {
+func (m *model) verifyNeighbours(o *hx.Outcome, base string, unc bool, repair bool, demand bool, out, where string) string {
 	if len(m.nbr) == 0 {
 		return out
 	}
@@ -136,8 +136,19 @@ func (m *model) verifyNeighbours(o *hx.Outcome, base string, unc bool, repair bo
 			continue
 		}
 		if nb.unc != unc {
+			if !demand {
+				o.Class("coexist:verify:skip-verify:damaged-other-format-neighbour")
+			}
 			if strings.Contains(out, nb.sid) {
 				o.Fail("C20:coexist:verified-other-format", "%s: Verify mentions %s, a %s file: %q", where, nb.name, modeName(nb.unc), out)
+			}
+			continue
+		}
+		if !demand {
+			// a SkipVerify client checks nothing of its own (nothing is demanded); follow what happened
+			o.Class("coexist:verify:skip-verify:own-damaged-chunk-not-demanded")
+			if _, still := snapNow.files[nb.name]; !still {
+				nb.present = false
 			}
 			continue
 		}
